@@ -1,6 +1,7 @@
 #![recursion_limit = "512"]
 mod common;
 mod pgconfig;
+mod redisconfig;
 mod syncmgr;
 
 use std::io::BufRead;
@@ -40,6 +41,7 @@ fn main() {
         }
         Some("cases") => match args[2].as_str() {
             "pgconfig" => pgconfig::run(&args[3], arg_val(&args, "--result")),
+            "redisconfig" => redisconfig::run(&args[3], arg_val(&args, "--result")),
             k => panic!("unknown case kind {}", k),
         },
         _ => {
